@@ -8,6 +8,7 @@ every use is recorded in the run's assumption list.
 from __future__ import annotations
 import ast, z3
 from .core import *
+from . import core
 from . import objects as O
 from .source import OutsideSubset
 from .state import PathEnd, PyRaise
@@ -35,85 +36,37 @@ EMPTY_SET = z3.K(V, z3.BoolVal(False))
 # helpers on sequences
 # ----------------------------------------------------------------------------------------------
 def seq_units(seq):
-    """host list of element terms when `seq` is syntactically a concatenation of units, else None"""
-    s = z3.simplify(seq)
-    out = []
-
-    def walk(t):
-        if z3.is_app(t):
-            k = t.decl().kind()
-            if k == z3.Z3_OP_SEQ_EMPTY:
-                return True
-            if k == z3.Z3_OP_SEQ_UNIT:
-                out.append(t.arg(0))
-                return True
-            if k == z3.Z3_OP_SEQ_CONCAT:
-                return all(walk(c) for c in t.children())
-        return False
-    return out if walk(s) else None
-
-
-def mkseq(items):
-    items = list(items)
-    if not items:
-        return z3.Empty(VSeq)
-    if len(items) == 1:
-        return z3.Unit(items[0])
-    return z3.Concat(*[z3.Unit(x) for x in items])
+    """host list of element terms of a z3 Seq term that is a concatenation of units, else None"""
+    return core._seq_units(seq)
 
 
 def dict_parts(I, d):
     h = I.st.h
     rid = V.id(d)
-    return z3.Select(h.ddom, rid), z3.Select(h.dval, rid), z3.Select(h.dord, rid)
+    return z3.Select(h.ddom, rid), z3.Select(h.dval, rid), I.st.dict_order(d)
 
 
-def set_of(seq):
-    """VSet of the elements of a sequence term, computed structurally where the term allows"""
-    t = z3.simplify(seq)
-
-    def walk(t):
-        if z3.is_app(t):
-            k = t.decl().kind()
-            if k == z3.Z3_OP_SEQ_EMPTY:
-                return EMPTY_SET
-            if k == z3.Z3_OP_SEQ_UNIT:
-                return z3.Store(EMPTY_SET, t.arg(0), True)
-            if k == z3.Z3_OP_SEQ_CONCAT:
-                parts = [walk(c) for c in t.children()]
-                cur = parts[0]
-                kk = z3.Const("k!so", V)
-                for p_ in parts[1:]:
-                    if z3.is_app(p_) and p_.decl().kind() == z3.Z3_OP_STORE and p_.arg(0).eq(EMPTY_SET):
-                        cur = z3.Store(cur, p_.arg(1), True)
-                    else:
-                        cur = z3.Lambda([kk], z3.Or(z3.Select(cur, kk), z3.Select(p_, kk)))
-                return cur
-            if k == z3.Z3_OP_ITE:
-                return z3.If(t.arg(0), walk(t.arg(1)), walk(t.arg(2)))
-        return SetOfSeq(t)
-    return walk(t)
-
-
-def order_axioms(I, dom, ordseq, n=None, full=False):
-    """the order oracle `ordseq` enumerates `dom` without duplicates"""
+def order_axioms(I, dom, sq, full=False):
+    """the order oracle `sq` enumerates `dom` without duplicates"""
     st = I.st
-    st.assume(SetOfSeq(ordseq) == dom)
-    if n is not None:
-        st.assume(z3.Length(ordseq) == n)
+    st.assume(SetOfArr(sq.arr, sq.n) == dom)
+    st.assume(sq.n >= 0)
     if not full:
         return None
     i = z3.Const("i!ord", I_)
     k = z3.Const("k!ord", V)
     idx = z3.Function(f"idx!{fresh('f', I_)}", V, I_)
-    st.assume(z3.ForAll([i], z3.Implies(z3.And(i >= 0, i < z3.Length(ordseq)), z3.Select(dom, Nth(ordseq, i))),
-                        patterns=[Nth(ordseq, i)]))
+    st.assume(z3.ForAll([i], z3.Implies(z3.And(i >= 0, i < sq.n),
+                                        z3.And(z3.Select(dom, sq.at(i)), idx(sq.at(i)) == i)),
+                        patterns=[sq.at(i)]))
     st.assume(z3.ForAll([k], z3.Implies(z3.Select(dom, k),
-                                        z3.And(idx(k) >= 0, idx(k) < z3.Length(ordseq), Nth(ordseq, idx(k)) == k)),
+                                        z3.And(idx(k) >= 0, idx(k) < sq.n, sq.at(idx(k)) == k)),
                         patterns=[z3.Select(dom, k)]))
-    st.assume(z3.ForAll([i], z3.Implies(z3.And(i >= 0, i < z3.Length(ordseq)), idx(Nth(ordseq, i)) == i),
-                        patterns=[Nth(ordseq, i)]))
     return idx
+
+
+def sq_of(I, items):
+    return Sq.of([I.lift(x) for x in items])
 
 
 I_ = z3.IntSort()
@@ -159,9 +112,9 @@ def get_item(I, cont, key):
                 I.raise_(KeyError, key, origin=("getitem",))
             return st.wf_read(z3.Select(val, key))
         if k == K_LIST:
-            seq = z3.Select(st.h.lseq, V.id(cont))
-            j = norm_index(I, key, z3.Length(seq))
-            return st.wf_read(z3.simplify(Nth(seq, j)))
+            sq = st.list_sq(cont)
+            j = norm_index(I, key, sq.n)
+            return st.wf_read(z3.simplify(sq.at(j)))
         if k == K_INST:
             gi = I.getattr(cont, "__getitem__")
             return I.call(gi, [key])
@@ -186,9 +139,9 @@ def get_slice(I, cont, lo, hi):
         a, b = bounds(z3.Length(V.items(cont)))
         return V.tup(z3.SubSeq(V.items(cont), a, b - a))
     if t == "ref" and I.kind(cont) == K_LIST:
-        seq = z3.Select(I.st.h.lseq, V.id(cont))
-        a, b = bounds(z3.Length(seq))
-        return I.st.new_list(z3.SubSeq(seq, a, b - a))
+        sq = I.st.list_sq(cont)
+        a, b = bounds(sq.n)
+        return I.st.new_list(sq.slice(a, b))
     raise OutsideSubset("slice on unsupported value")
 
 
@@ -206,17 +159,18 @@ def set_item(I, cont, key, value):
     if k == K_DICT:
         dom = z3.Select(h.ddom, rid)
         present = z3.Select(dom, key)
-        h.dlen = z3.Store(h.dlen, rid, z3.If(present, z3.Select(h.dlen, rid), z3.Select(h.dlen, rid) + 1))
-        h.dord = z3.Store(h.dord, rid, z3.If(present, z3.Select(h.dord, rid), z3.Concat(z3.Select(h.dord, rid), z3.Unit(key))))
+        oldlen = z3.Select(h.dlen, rid)
+        h.dord = z3.Store(h.dord, rid, z3.If(present, z3.Select(h.dord, rid),
+                                              z3.Store(z3.Select(h.dord, rid), oldlen, key)))
+        h.dlen = z3.Store(h.dlen, rid, z3.If(present, oldlen, oldlen + 1))
         h.ddom = z3.Store(h.ddom, rid, z3.Store(dom, key, True))
         h.dval = z3.Store(h.dval, rid, z3.Store(z3.Select(h.dval, rid), key, value))
         I.spec.on_write(I, "dict", cont, key)
         return
     if k == K_LIST:
-        seq = z3.Select(h.lseq, rid)
-        j = norm_index(I, key, z3.Length(seq))
-        new = z3.Concat(z3.SubSeq(seq, 0, j), z3.Unit(value), z3.SubSeq(seq, j + 1, z3.Length(seq) - j - 1))
-        h.lseq = z3.Store(h.lseq, rid, new)
+        sq = st.list_sq(cont)
+        j = norm_index(I, key, sq.n)
+        st.set_list(cont, Sq(z3.Store(sq.arr, j, value), sq.n))
         return
     if k == K_INST:
         return I.call(I.getattr(cont, "__setitem__"), [key, value])
@@ -234,7 +188,7 @@ def del_item(I, cont, key):
             I.raise_(KeyError, key, origin=("delitem",))
         h.ddom = z3.Store(h.ddom, rid, z3.Store(dom, key, False))
         h.dlen = z3.Store(h.dlen, rid, z3.Select(h.dlen, rid) - 1)
-        h.dord = z3.Store(h.dord, rid, fresh("ord_after_del", VSeq))
+        h.dord = z3.Store(h.dord, rid, fresh("ord_after_del", VArr))
         I.spec.on_write(I, "dict", cont, key)
         return
     raise OutsideSubset("del item on unsupported container")
@@ -246,7 +200,7 @@ def dict_update(I, d, other):
     h = st.h
     other = I.lower(other)
     if I.tag(other) == "ref" and I.kind(other) == K_DICT:
-        units = seq_units(z3.Select(h.dord, V.id(other)))
+        units = st.dict_order(other).units()
         if units is not None:
             for kx in units:
                 set_item(I, d, kx, z3.Select(z3.Select(h.dval, V.id(other)), kx))
@@ -264,7 +218,7 @@ def dict_update(I, d, other):
         h.ddom = z3.Store(h.ddom, rid, ndom)
         h.dval = z3.Store(h.dval, rid, nval)
         h.dlen = z3.Store(h.dlen, rid, n)
-        h.dord = z3.Store(h.dord, rid, fresh("ord_after_update", VSeq))
+        h.dord = z3.Store(h.dord, rid, fresh("ord_after_update", VArr))
         I.spec.on_write(I, "dict", d, None)
         return
     raise OutsideSubset("dict.update with unsupported argument")
@@ -290,7 +244,7 @@ def contains(I, cont, x):
         if cont.kind == "setlike":
             return z3.Select(cont.base, I.lift(x))
         if cont.kind == "seq":
-            return z3.Select(set_of(cont.base), I.lift(x))
+            return z3.Select(cont.base.set_term(), I.lift(x))
         raise OutsideSubset(f"'in' on view {cont.kind}")
     if not is_v(cont):
         raise OutsideSubset(f"'in' on {cont!r}")
@@ -304,7 +258,7 @@ def contains(I, cont, x):
         units = seq_units(V.items(cont))
         if units is not None:
             return z3.Or([I.veq(x, u) for u in units]) if units else z3.BoolVal(False)
-        return z3.Select(set_of(V.items(cont)), x)
+        return z3.Select(Sq.from_tuple(cont).set_term(), x)
     if t == "ref":
         k = I.kind(cont)
         rid = V.id(cont)
@@ -313,10 +267,10 @@ def contains(I, cont, x):
         if k == K_SET:
             return z3.Select(z3.Select(h.sdom, rid), x)
         if k == K_LIST:
-            units = seq_units(z3.Select(h.lseq, rid))
+            units = st.list_sq(cont).units()
             if units is not None:
                 return z3.Or([I.veq(x, u) for u in units]) if units else z3.BoolVal(False)
-            return z3.Select(set_of(z3.Select(h.lseq, rid)), x)
+            return z3.Select(st.list_sq(cont).set_term(), x)
         if k == K_INST:
             r = I.call(I.getattr(cont, "__contains__"), [x])
             return I.truthy(r)
@@ -393,9 +347,9 @@ def binop(I, op, a, b, inplace=False):
         ka, kb = I.kind(a), I.kind(b)
         h = st.h
         if ka == K_LIST and kb == K_LIST and isinstance(op, ast.Add):
-            new = z3.Concat(z3.Select(h.lseq, V.id(a)), z3.Select(h.lseq, V.id(b)))
+            new = st.list_sq(a).concat(st.list_sq(b))
             if inplace:
-                h.lseq = z3.Store(h.lseq, V.id(a), new)
+                st.set_list(a, new)
                 return a
             return st.new_list(new)
         if ka == K_SET and kb == K_SET:
@@ -443,10 +397,10 @@ def unpack(I, v, n):
     if items is None:
         if n is None:
             raise OutsideSubset("unpacking a sequence of unknown length")
-        seq = iterate_seq(I, v)
-        if not I.st.decide(z3.Length(seq) == n, "unpack-len"):
+        sq = iterate_seq(I, v)
+        if not I.st.decide(sq.n == n, "unpack-len"):
             I.raise_(ValueError, origin=("unpack",))
-        return [I.st.wf_read(z3.simplify(Nth(seq, i))) for i in range(n)]
+        return [I.st.wf_read(z3.simplify(sq.at(i))) for i in range(n)]
     if n is not None and len(items) != n:
         I.raise_(ValueError, origin=("unpack",))
     return items
@@ -483,8 +437,8 @@ def iterate_concrete(I, it):
             items = iterate_concrete(I, it.base)
             return None if items is None else list(reversed(items))
         if it.kind in ("keys", "values", "items"):
-            dom, val, ordseq = dict_parts(I, it.base)
-            units = seq_units(ordseq)
+            dom, val, ordsq = dict_parts(I, it.base)
+            units = ordsq.units()
             if units is None:
                 return None
             if it.kind == "keys":
@@ -493,7 +447,7 @@ def iterate_concrete(I, it):
                 return [st.wf_read(z3.Select(val, k)) for k in units]
             return [vtup([k, st.wf_read(z3.Select(val, k))]) for k in units]
         if it.kind == "seq":
-            return seq_units(it.base)
+            return it.base.units()
         return None
     if not is_v(it):
         raise OutsideSubset(f"iteration over {it!r}")
@@ -508,9 +462,9 @@ def iterate_concrete(I, it):
     if t == "ref":
         k = I.kind(it)
         if k == K_LIST:
-            return seq_units(z3.Select(h.lseq, V.id(it)))
+            return st.list_sq(it).units()
         if k == K_DICT:
-            return seq_units(z3.Select(h.dord, V.id(it)))
+            return st.dict_order(it).units()
         if k == K_SET:
             dom = z3.simplify(z3.Select(h.sdom, V.id(it)))
             elems = _store_chain(dom)
@@ -546,58 +500,57 @@ def _store_chain(dom):
 
 
 def iterate_seq(I, it, full=False):
-    """z3 Seq V enumerating the iterable (order oracles for dict/set)"""
+    """Sq enumerating the iterable (order oracles for dict/set)"""
     st = I.st
     h = st.h
     it = I.lower(it)
+    if isinstance(it, Sq):
+        return it
+    if isinstance(it, list):
+        return sq_of(I, it)
     if isinstance(it, HView):
         if it.kind == "seq":
             return it.base
         if it.kind == "setlike":
-            o = fresh("setord", VSeq)
+            o = Sq(fresh("setord", VArr), fresh("setcard", I_))
             order_axioms(I, it.base, o, full=full)
             return o
         if it.kind in ("keys", "values", "items"):
-            dom, val, ordseq = dict_parts(I, it.base)
-            order_axioms(I, dom, ordseq, z3.Select(h.dlen, V.id(it.base)), full=full)
+            dom, val, ordsq = dict_parts(I, it.base)
+            order_axioms(I, dom, ordsq, full=full)
             if it.kind == "keys":
-                return ordseq
-            out = fresh(it.kind, VSeq)
+                return ordsq
             i = z3.Const("i!view", I_)
-            st.assume(z3.Length(out) == z3.Length(ordseq))
-            elem = z3.Select(val, Nth(ordseq, i))
+            elem = z3.Select(val, ordsq.at(i))
             if it.kind == "items":
-                elem = V.tup(z3.Concat(z3.Unit(Nth(ordseq, i)), z3.Unit(elem)))
-            st.assume(z3.ForAll([i], z3.Implies(z3.And(i >= 0, i < z3.Length(out)), Nth(out, i) == elem),
-                                patterns=[Nth(out, i)]))
-            return out
+                elem = V.tup(z3.Concat(z3.Unit(ordsq.at(i)), z3.Unit(elem)))
+            return Sq(z3.Lambda([i], elem), ordsq.n)
         if it.kind == "enumerate":
             base = iterate_seq(I, it.base, full)
-            out = fresh("enum", VSeq)
             i = z3.Const("i!enum", I_)
-            st.assume(z3.Length(out) == z3.Length(base))
-            st.assume(z3.ForAll([i], z3.Implies(z3.And(i >= 0, i < z3.Length(out)),
-                                                Nth(out, i) == V.tup(z3.Concat(z3.Unit(V.int(i)), z3.Unit(Nth(base, i))))),
-                                patterns=[Nth(out, i)]))
-            return out
+            return Sq(z3.Lambda([i], V.tup(z3.Concat(z3.Unit(V.int(i)), z3.Unit(base.at(i))))), base.n)
+        if it.kind == "range":
+            lo, hi = it.base
+            i = z3.Const("i!rng", I_)
+            return Sq(z3.Lambda([i], V.int(lo + i)), z3.If(hi > lo, hi - lo, 0))
         raise OutsideSubset(f"symbolic iteration over view {it.kind}")
     if not is_v(it):
         raise OutsideSubset(f"iteration over {it!r}")
     t = I.tag(it)
     if t == "tup":
-        return V.items(it)
+        return Sq.from_tuple(it)
     if t == "ref":
         k = I.kind(it)
         rid = V.id(it)
         if k == K_LIST:
-            return z3.Select(h.lseq, rid)
+            return st.list_sq(it)
         if k == K_DICT:
-            dom, val, ordseq = dict_parts(I, it)
-            order_axioms(I, dom, ordseq, z3.Select(h.dlen, rid), full=full)
-            return ordseq
+            dom, val, ordsq = dict_parts(I, it)
+            order_axioms(I, dom, ordsq, full=full)
+            return ordsq
         if k == K_SET:
-            o = fresh("setord", VSeq)
-            order_axioms(I, z3.Select(h.sdom, rid), o, z3.Select(h.slen, rid), full=full)
+            o = Sq(fresh("setord", VArr), z3.Select(h.slen, rid))
+            order_axioms(I, z3.Select(h.sdom, rid), o, full=full)
             return o
         if k == K_INST:
             return I.spec.iterate_instance(I, it)
@@ -618,13 +571,7 @@ def as_set_term(I, it):
         if it.kind == "keys":
             return as_set_term(I, it.base)
         if it.kind == "seq":
-            units = seq_units(it.base)
-            if units is not None:
-                d = EMPTY_SET
-                for u in units:
-                    d = z3.Store(d, u, True)
-                return d
-            return _set_of_seq(I, it.base)
+            return it.base.set_term()
         raise OutsideSubset(f"set() of view {it.kind}")
     items = iterate_concrete(I, it)
     if items is not None:
@@ -640,16 +587,12 @@ def as_set_term(I, it):
         if k == K_SET:
             return z3.Select(h.sdom, V.id(it))
         if k == K_LIST:
-            return _set_of_seq(I, z3.Select(h.lseq, V.id(it)))
+            return I.st.list_sq(it).set_term()
     if t == "tup":
-        return _set_of_seq(I, V.items(it))
+        return Sq.from_tuple(it).set_term()
     if t == "none":
         I.raise_(TypeError, origin=("iter-none",))
     raise OutsideSubset("set() of unsupported iterable")
-
-
-def _set_of_seq(I, seq):
-    return set_of(seq)
 
 
 # ----------------------------------------------------------------------------------------------
@@ -715,9 +658,9 @@ def comprehension(I, e, env, kind):
 def _build(I, kind, results):
     st = I.st
     if kind == "list":
-        return st.new_list(mkseq(results))
+        return st.new_list(Sq.of(results))
     if kind == "gen":
-        return HView("seq", mkseq(results))
+        return HView("seq", Sq.of(results))
     if kind == "set":
         s = st.new_set()
         for x in results:
@@ -791,7 +734,7 @@ def _symbolic_comp(I, e, env, inner, kind, it):
                 return st.new_set(dom)
             if kind == "gen":
                 return HView("setlike", dom)
-            o = fresh("compord", VSeq)
+            o = Sq(fresh("compord", VArr), fresh("compcard", I_))
             order_axioms(I, dom, o)
             return st.new_list(o)
         if kind == "gen":
@@ -808,12 +751,8 @@ def _symbolic_comp(I, e, env, inner, kind, it):
             extra = st.pc[npc:]
             del st.pc[npc:]
             raise OutsideSubset("comprehension body adds assumptions")
-        out = fresh("map", VSeq)
         i = z3.Const("i!map", I_)
-        st.assume(z3.Length(out) == z3.Length(seq))
-        st.assume(z3.ForAll([i], z3.Implies(z3.And(i >= 0, i < z3.Length(seq)),
-                                            Nth(out, i) == z3.substitute(elt, (xb, Nth(seq, i)))),
-                            patterns=[Nth(out, i)]))
+        out = Sq(z3.Lambda([i], z3.substitute(elt, (xb, seq.at(i)))), seq.n)
         if kind == "gen":
             return HView("seqpred", (seq, xb, elt, out))
         return st.new_list(out)
@@ -894,7 +833,7 @@ def _dict_method(I, d, rid, name, args, kwargs):
             v = st.wf_read(z3.Select(val, key))
             h.ddom = z3.Store(h.ddom, rid, z3.Store(dom, key, False))
             h.dlen = z3.Store(h.dlen, rid, z3.Select(h.dlen, rid) - 1)
-            h.dord = z3.Store(h.dord, rid, fresh("ord_after_pop", VSeq))
+            h.dord = z3.Store(h.dord, rid, fresh("ord_after_pop", VArr))
             I.spec.on_write(I, "dict", d, key)
             return v
         if len(args) > 1:
@@ -911,7 +850,7 @@ def _dict_method(I, d, rid, name, args, kwargs):
     if name == "clear":
         h.ddom = z3.Store(h.ddom, rid, EMPTY_SET)
         h.dlen = z3.Store(h.dlen, rid, 0)
-        h.dord = z3.Store(h.dord, rid, z3.Empty(VSeq))
+        h.dord = z3.Store(h.dord, rid, EMPTY_ARR)
         I.spec.on_write(I, "dict", d, None)
         return NONE
     raise OutsideSubset("dict." + name)
@@ -933,41 +872,45 @@ def _copy_dict(I, d):
 def _list_method(I, l, rid, name, args, kwargs):
     st = I.st
     h = st.h
-    seq = z3.Select(h.lseq, rid)
+    sq = st.list_sq(l)
     if name == "append":
-        h.lseq = z3.Store(h.lseq, rid, z3.Concat(seq, z3.Unit(I.lift(args[0]))))
+        st.set_list(l, sq.append(I.lift(args[0])))
         I.spec.on_write(I, "list", l, None)
         return NONE
     if name == "extend":
-        other = iterate_seq(I, args[0]) if iterate_concrete(I, args[0]) is None else mkseq([I.lift(x) for x in iterate_concrete(I, args[0])])
-        h.lseq = z3.Store(h.lseq, rid, z3.Concat(seq, other))
+        items = iterate_concrete(I, args[0])
+        other = sq_of(I, items) if items is not None else iterate_seq(I, args[0])
+        st.set_list(l, sq.concat(other))
         I.spec.on_write(I, "list", l, None)
         return NONE
     if name == "copy":
-        return st.new_list(seq)
+        return st.new_list(sq)
     if name == "pop":
-        n = z3.Length(seq)
+        n = sq.n
         if not st.decide(n > 0, "pop-nonempty"):
             I.raise_(IndexError, origin=("pop",))
         if args:
             j = norm_index(I, args[0], n)
         else:
             j = n - 1
-        v = st.wf_read(Nth(seq, j))
-        h.lseq = z3.Store(h.lseq, rid, z3.Concat(z3.SubSeq(seq, 0, j), z3.SubSeq(seq, j + 1, n - j - 1)))
+        v = st.wf_read(sq.at(j))
+        i = z3.Int("i!pop")
+        st.set_list(l, Sq(z3.Lambda([i], z3.If(i < j, sq.at(i), sq.at(i + 1))), n - 1))
         return v
     if name == "sort":
         if kwargs or args:
             raise OutsideSubset("list.sort with key")
-        dom = _set_of_seq(I, seq)
+        dom = sq.set_term()
         assume_lib("sorted", "list.sort()/sorted() of duplicate-free input is a function of the element set")
-        h.lseq = z3.Store(h.lseq, rid, SortedOf(dom))
+        st.set_list(l, Sq(SortedArr(dom), sq.n))
         return NONE
     if name == "insert":
         j = V.i(I.lift(args[0]))
-        n = z3.Length(seq)
+        n = sq.n
         jj = z3.If(j < 0, z3.If(j + n < 0, 0, j + n), z3.If(j > n, n, j))
-        h.lseq = z3.Store(h.lseq, rid, z3.Concat(z3.SubSeq(seq, 0, jj), z3.Unit(I.lift(args[1])), z3.SubSeq(seq, jj, n - jj)))
+        i = z3.Int("i!ins")
+        x = I.lift(args[1])
+        st.set_list(l, Sq(z3.Lambda([i], z3.If(i < jj, sq.at(i), z3.If(i == jj, x, sq.at(i - 1)))), n + 1))
         return NONE
     raise OutsideSubset("list." + name)
 
@@ -1052,11 +995,15 @@ def _str_method(I, s, name, args, kwargs):
             if not parts:
                 return vstr("")
             return vstr(parts[0] if len(parts) == 1 else z3.Concat(*parts))
-        f = z3.Function("str_join", z3.StringSort(), VSeq, z3.StringSort())
-        return vstr(f(x, iterate_seq(I, args[0])))
+        f = z3.Function("str_join", z3.StringSort(), VArr, I_, z3.StringSort())
+        sq = iterate_seq(I, args[0])
+        return vstr(f(x, sq.arr, sq.n))
     if name == "split":
-        f = z3.Function("str_split", z3.StringSort(), V, VSeq)
-        return I.st.new_list(f(x, I.lift(args[0]) if args else NONE))
+        f = z3.Function("str_split", z3.StringSort(), V, VArr)
+        g = z3.Function("str_split_n", z3.StringSort(), V, I_)
+        sep = I.lift(args[0]) if args else NONE
+        I.st.assume(g(x, sep) >= 1)
+        return I.st.new_list(Sq(f(x, sep), g(x, sep)))
     if name == "replace":
         return vstr(z3.Replace(x, V.s(I.lift(args[0])), V.s(I.lift(args[1])))) if False else vstr(
             z3.Function("str_replace_all", z3.StringSort(), z3.StringSort(), z3.StringSort(), z3.StringSort())(
@@ -1069,15 +1016,15 @@ def _str_method(I, s, name, args, kwargs):
 # ----------------------------------------------------------------------------------------------
 # external / built-in functions
 # ----------------------------------------------------------------------------------------------
-def isinstance_cond(I, v, cls):
+def isinstance_cond(I, v, cls, register=True):
     """z3 Bool for isinstance(v, cls)"""
     st = I.st
     cls = I.lower(cls)
     if is_v(cls) and I.tag(cls) == "tup":
         units = seq_units(V.items(cls))
-        return z3.Or([isinstance_cond(I, v, u) for u in units])
+        return z3.Or([isinstance_cond(I, v, u, register) for u in units])
     if isinstance(cls, list):
-        return z3.Or([isinstance_cond(I, v, u) for u in cls])
+        return z3.Or([isinstance_cond(I, v, u, register) for u in cls])
     if isinstance(v, O.HExc):
         if isinstance(cls, O.ClassInfo):
             return I.cid_issub(v.cid, cls)
@@ -1090,7 +1037,7 @@ def isinstance_cond(I, v, cls):
         raise OutsideSubset(f"isinstance of {v!r}")
     h = st.h
     if isinstance(cls, O.ClassInfo):
-        st.mention(cls)
+        st.mention(cls, target=True)
         py = cls.pycls
         rid = V.id(v)
         if py is object:
@@ -1113,18 +1060,18 @@ def isinstance_cond(I, v, cls):
             return z3.And(V.is_ref(v), z3.Select(h.kind, rid) == K_SET)
         if py is type:
             return V.is_cls(v)
-        t = I.tag(v)
+        t = I.tag(v, cheap=True)
         if t == "ref":
             c = z3.simplify(z3.Select(h.cls, rid))
             inst = z3.Select(h.kind, rid) == K_INST
             if z3.is_int_value(c) and O.class_by_id(c.as_long()) is not None:
                 return z3.And(inst, z3.BoolVal(O.class_by_id(c.as_long()).is_sub(cls)))
-            if not any(c.eq(t_) for t_ in st.symcls):
+            if register and not any(c.eq(t_) for t_ in st.symcls):
                 st.symcls.append(c)
             return z3.And(inst, issub(c, cls.cid))
         if t == "obj":
             c = objcls(V.oid(v))
-            if not any(c.eq(t_) for t_ in st.symcls):
+            if register and not any(c.eq(t_) for t_ in st.symcls):
                 st.symcls.append(c)
             return issub(c, cls.cid)
         if t in ("none", "bool", "int", "str", "real", "tup", "cls", "fn"):
@@ -1132,13 +1079,13 @@ def isinstance_cond(I, v, cls):
         c1 = z3.Select(h.cls, rid)
         c2 = objcls(V.oid(v))
         for c in (c1, c2):
-            if not any(c.eq(t_) for t_ in st.symcls):
+            if register and not any(c.eq(t_) for t_ in st.symcls):
                 st.symcls.append(c)
         return z3.Or(z3.And(V.is_ref(v), z3.Select(h.kind, rid) == K_INST, issub(c1, cls.cid)),
                      z3.And(V.is_obj(v), issub(c2, cls.cid)))
     if is_v(cls) and I.tag(cls) == "cls":
         # symbolic class
-        t = I.tag(v)
+        t = I.tag(v, cheap=True)
         cid = V.cid(cls)
         if t == "obj":
             return issub(objcls(V.oid(v)), cid)
@@ -1178,6 +1125,13 @@ def type_of(I, v):
             return V.cls(z3.Select(st.h.cls, V.id(v)))
     if t == "obj":
         return V.cls(objcls(V.oid(v)))
+    if t is None:
+        # case split on the constructor (each side learns the tag)
+        for nm in ("none", "bool", "int", "str", "real", "tup", "ref", "obj", "cls"):
+            if st.decide(getattr(V, "is_" + nm)(v), f"type():{nm}"):
+                st.tags[v.get_id()] = nm
+                st._tagkeep.append(v)
+                return type_of(I, v)
     return I.spec.type_unknown(I, v)
 
 
@@ -1189,7 +1143,7 @@ def vlen(I, v):
         if v.kind in ("keys", "values", "items"):
             return vint(z3.Select(h.dlen, V.id(v.base)))
         if v.kind == "seq":
-            return vint(z3.Length(v.base))
+            return vint(v.base.n)
         raise OutsideSubset("len of view")
     t = I.tag(v)
     if t == "str":
@@ -1206,7 +1160,7 @@ def vlen(I, v):
             I._card_axioms(v)
             return vint(z3.Select(h.slen, rid))
         if k == K_LIST:
-            return vint(z3.Length(z3.Select(h.lseq, rid)))
+            return vint(z3.Select(h.llen, rid))
         if k == K_INST:
             return I.call(I.getattr(v, "__len__"), [])
     if t == "obj":
@@ -1220,13 +1174,13 @@ def quantify_view(I, view, want_all):
     """any()/all() over a predicate view"""
     kind = view.kind
     if kind == "seq":
-        units = seq_units(view.base)
+        units = view.base.units()
         if units is not None:
             conds = [I.truthy(u) for u in units]
             return (z3.And(conds) if want_all else z3.Or(conds)) if conds else z3.BoolVal(want_all)
         i = z3.Const("i!q", I_)
-        x = Nth(view.base, i)
-        rng = z3.And(i >= 0, i < z3.Length(view.base))
+        x = view.base.at(i)
+        rng = z3.And(i >= 0, i < view.base.n)
         return z3.ForAll([i], z3.Implies(rng, I.truthy(x))) if want_all else z3.Exists([i], z3.And(rng, I.truthy(x)))
     if kind == "setpred":
         src, xb, c, elt = view.base
@@ -1246,8 +1200,8 @@ def quantify_view(I, view, want_all):
         else:
             seq, xb, c, elt = view.base
         i = z3.Const("i!q", I_)
-        rng = z3.And(i >= 0, i < z3.Length(seq))
-        sub = lambda t: z3.substitute(t, (xb, Nth(seq, i)))
+        rng = z3.And(i >= 0, i < seq.n)
+        sub = lambda t: z3.substitute(t, (xb, seq.at(i)))
         body = sub(I.truthy(elt))
         guard = z3.And(rng, sub(c))
         return z3.ForAll([i], z3.Implies(guard, body)) if want_all else z3.Exists([i], z3.And(guard, body))
@@ -1346,7 +1300,7 @@ def call_ext(I, dotted, args, kwargs, star, env):
             return st.new_list()
         items = iterate_concrete(I, args[0])
         if items is not None:
-            return st.new_list(mkseq([I.lift(x) for x in items]))
+            return st.new_list(sq_of(I, items))
         return st.new_list(iterate_seq(I, args[0]))
     if name == "builtins.tuple":
         if not args:
@@ -1354,7 +1308,7 @@ def call_ext(I, dotted, args, kwargs, star, env):
         items = iterate_concrete(I, args[0])
         if items is not None:
             return vtup([I.lift(x) for x in items])
-        return V.tup(iterate_seq(I, args[0]))
+        return iterate_seq(I, args[0]).to_tuple()
     if name in ("builtins.set", "builtins.frozenset"):
         if not args:
             return st.new_set()
@@ -1378,7 +1332,25 @@ def call_ext(I, dotted, args, kwargs, star, env):
             return I.spec.sorted_with_key(I, args, kwargs)
         assume_lib("sorted", "sorted() of duplicate-free input is a function of the element set (order-free), ordered by <")
         dom = as_set_term(I, args[0])
-        return st.new_list(SortedOf(dom))
+        src = I.lower(args[0])
+        n = None
+        if is_v(src) and I.tag(src) == "ref":
+            if I.kind(src) == K_SET:
+                I._card_axioms(src)
+                n = z3.Select(h.slen, V.id(src))
+            elif I.kind(src) == K_DICT:
+                I._card_axioms(src)
+                n = z3.Select(h.dlen, V.id(src))
+        elif isinstance(src, HView) and src.kind == "keys":
+            n = z3.Select(h.dlen, V.id(src.base))
+        if n is None:
+            n = fresh("card", I_)
+            st.assume(n >= 0)
+            st.assume((n == 0) == (dom == EMPTY_SET))
+        items = iterate_concrete(I, src)
+        if items is not None and len(items) <= 1:
+            return st.new_list(sq_of(I, items))
+        return st.new_list(Sq(SortedArr(dom), n))
     if name == "builtins.any" or name == "builtins.all":
         want_all = name.endswith("all")
         src = I.lower(args[0])
@@ -1496,7 +1468,7 @@ def issubclass_cond(I, a, b):
     cb = z3.IntVal(b.cid) if isinstance(b, O.ClassInfo) else V.cid(b)
     for x in (a, b):
         if isinstance(x, O.ClassInfo):
-            st.mention(x)
+            st.mention(x, target=True)
     for c in (ca, cb):
         s = z3.simplify(c)
         if not z3.is_int_value(s) and not any(s.eq(t) for t in st.symcls):
